@@ -2,7 +2,7 @@
 
    Objects: [run_ctx] = interp/vm.go execute() (Model/VM.v) with the context poll in the head of the
    dispatch loop; [execute_all] = interp.go executeAll/execActions; [cstate] = (p.checkCtx, p.ctxOps)
-   plus the ghosts clock (instructions executed so far) and done_at (from which clock value
+   plus the ghosts clock (steps so far: instructions executed + records fetched) and done_at (from which clock value
    ctx.Done() is closed).  All statements hold for EVERY implementation [P] of the interpreter's
    primitive operations, every function table, code, stack, state, nesting depth and fuel. *)
 From Coq Require Import String.
@@ -151,59 +151,40 @@ Print Assumptions C15_output_delivered.
 
 (* ======================= 4. the record loop ======================= *)
 
-(* Full statement: under a cancelled context the record loop of execActions returns within the
-   instruction budget, whatever the rules and however long the input. *)
-Definition C15_records_full_statement : Prop :=
+(* Under a cancelled context the record loop of execActions returns within the step budget,
+   whatever the rules (none at all, or a body that compiled to no opcode) and however long the
+   input: the loop polls the shared counter once per record, so a record is a step like an
+   instruction.  (Before the repair of F-C15-1 this statement was refuted by the rule `{ {} }` on
+   an endless input, and held only for programs whose first rule executes an instruction per record.) *)
+Theorem C15_records_full_statement :
   forall (value St err : Type) (P : prims value St err) (F : list cfunc) (cancel_req : St -> bool)
          (IO : ioprims value St err) f n acts inr stk m cs t x cs',
-  Inv cs -> done_at cs = Some t -> left t cs < Z.of_nat n -> left t cs < Z.of_nat f ->
-  exec_actions P F cancel_req IO n f acts inr stk m cs = (x, cs') -> x <> CRes VFuel.
-
-(* It is false: the loop is polled only through the opcodes its rules execute.  `{ {} }` compiles
-   to a rule without pattern and with an empty (not absent) body: no opcode per record, so on an
-   endless input the loop never looks at the context (here: still running after 1200 records of a
-   context cancelled before the call, budget 999). *)
-Theorem C15_records_refuted : ~ C15_records_full_statement.
-Proof.
-  intros H.
-  assert (E : exists cs', exec_actions (ctoy toy_natives) [] c_cancel cio_endless (Z.to_nat 1200) (Z.to_nat 1200)
-                            [([], Some [])] [false] [] (toy_m0 0) (cs_execute_context true (Some 0)) = (CRes VFuel, cs')).
-  { eexists. vm_compute. reflexivity. }
-  destruct E as (cs' & E).
-  refine (H _ _ _ _ _ _ _ _ _ _ _ _ _ _ 0 _ _ _ _ _ _ E eq_refl).
-  - apply Inv_init. intros t Ht. inversion Ht. lia.
-  - reflexivity.
-  - vm_compute. reflexivity.
-  - vm_compute. reflexivity.
-Qed.
-Print Assumptions C15_records_refuted.
-
-(* With the guard "the first rule executes at least one instruction per record" it holds. *)
-Theorem C15_records_partial :
-  forall (value St err : Type) (P : prims value St err) (F : list cfunc) (cancel_req : St -> bool)
-         (IO : ioprims value St err) f n acts inr stk m cs t x cs',
-  first_rule_dispatches acts ->
   Inv cs -> done_at cs = Some t -> left t cs < Z.of_nat n -> left t cs < Z.of_nat f ->
   exec_actions P F cancel_req IO n f acts inr stk m cs = (x, cs') -> x <> CRes VFuel.
 Proof. intros value St err P F cancel_req IO f. exact (exec_actions_returns value St err P F cancel_req IO f). Qed.
-Print Assumptions C15_records_partial.
+Print Assumptions C15_records_full_statement.
+
+(* the former witnesses: `{ {} }` (a rule without pattern, with an empty but not absent body) and no
+   rule at all, on an input that never ends, context cancelled before the call: the 1000th
+   iteration polls and returns the context's error; 999 records were fetched (and, for `{ {} }`, printed) *)
+Example C15_records_former_witness :
+  forall acts inr, (acts, inr) = ([([], Some [])], [false]) \/ (acts, inr) = ([], []) ->
+  exists m' cs', exec_actions (ctoy toy_natives) [] c_cancel cio_endless (Z.to_nat 1200) (Z.to_nat 1200)
+                   acts inr [] (toy_m0 0) (cs_execute_context true (Some 0)) = (CCtx m', cs') /\
+                 clock cs' = 999 /\ c_nr (ms m') = 999.
+Proof.
+  intros acts inr [E|E]; inversion E; subst; do 2 eexists; vm_compute; repeat split; reflexivity.
+Qed.
 
 (* The whole call: ExecuteContext with a context cancelled at t returns (BEGIN, record loop, END all
-   within the budget; fuel is only the evaluator's recursion bound), provided the record loop is polled *)
+   within the budget; fuel is only the evaluator's recursion bound), for every program *)
 Theorem C15_execute_context_returns :
   forall (value St err : Type) (P : prims value St err) (F : list cfunc) (cancel_req : St -> bool)
          (IO : ioprims value St err) fuel cp m0 t x fin cs',
-  first_rule_dispatches (c_actions cp) \/ (c_actions cp = [] /\ c_end cp = []) ->
   0 <= t -> t + checkContextOps - 1 < Z.of_nat fuel ->
   execute_all P F cancel_req IO fuel cp m0 (cs_execute_context true (Some t)) = (x, fin, cs') -> x <> RFuel.
 Proof. exact execute_all_returns. Qed.
 Print Assumptions C15_execute_context_returns.
-
-Example C15_guard_satisfiable :
-  first_rule_dispatches [([[INum 0]], None)] /\ first_rule_dispatches [([], Some [INop])] /\
-  first_rule_dispatches [([[IGlobal 0]; [IGlobal 1]], Some [])] /\
-  ~ first_rule_dispatches [([], Some [])] /\ ~ first_rule_dispatches [].
-Proof. cbn. repeat split; try lia; intros H; exact H. Qed.
 
 (* ======================= 5. the source facts (regenerated tables) ======================= *)
 
@@ -214,6 +195,12 @@ Theorem C15_poll_is_first_in_the_only_dispatch_loop :
   filter (fun l => String.eqb (snd (fst l)) dispatch_header) loops = [("interp.execute"%string, dispatch_header, 2)].
 Proof. split; [exact dispatch_loop_head|exact one_dispatch_loop]. Qed.
 Print Assumptions C15_poll_is_first_in_the_only_dispatch_loop.
+
+(* the record loop polls in its head, before the record is fetched *)
+Theorem C15_record_loop_polls :
+  record_loop_head = ["if p.checkCtx { err := p.checkContext() if err != nil { return err } }"]%string.
+Proof. exact record_loop_polls. Qed.
+Print Assumptions C15_record_loop_polls.
 
 Theorem C15_every_loop_classified : forallb (fun l => is_some (classify l)) loops = true.
 Proof. exact loops_classified. Qed.
@@ -241,8 +228,8 @@ Theorem C15_source_as_modelled :
   ctxops_writes = [("Interpreter.ExecuteContext", "p.interp.ctxOps = 0");
                    ("interp.checkContext", "p.ctxOps++"); ("interp.checkContext", "p.ctxOps = 0")]%string /\
   poll_sites = [("interp.executeAll", "checkContextNow"); ("interp.executeAll", "checkContextNow");
-                ("interp.executeAll", "checkContextNow"); ("interp.checkContext", "checkContextNow");
-                ("interp.execute", "checkContext")]%string /\
+                ("interp.executeAll", "checkContextNow"); ("interp.execActions", "checkContext");
+                ("interp.checkContext", "checkContextNow"); ("interp.execute", "checkContext")]%string /\
   command_sites = [("interp.execShell", "CommandContext", "p.checkCtx"); ("interp.execShell", "Command", "!(p.checkCtx)")]%string.
 Proof.
   split; [exact check_context_source|]. split; [exact execute_context_source|].
